@@ -357,6 +357,24 @@ def run_check(pid, tier, seed, replay=None):
             broken.append(('broken-obligation', f.split(':')[0], f))
         bad_th = set(re.match(r'theorem (\S+?):? ', f).group(1).rstrip(':') for f in fails if f.startswith('theorem '))
         discharged = len([t for t in theorems if t in assum and t not in bad_th])
+    coqchk_report = None
+    if build_ok and tier == 'thorough' and replay is None:
+        # independent re-check of the compiled theorem files and everything they depend on
+        mods = ' '.join('DV.' + f[:-2].replace('/', '.') for f in props_files)
+        rc2, out2 = sh('coqchk -silent -o -Q %s DV %s' % (COQ, mods), 3000, cwd=COQ)
+        m2 = re.search(r'CONTEXT SUMMARY.*', out2, re.S)
+        coqchk_report = re.sub(r'\s+', ' ', m2.group(0))[:1500] if m2 else out2.strip()[-800:]
+        ax = re.search(r'\* Axioms:(.*?)\* Constants/Inductives relying on type-in-type:(.*?)\* Constants/Inductives relying on unsafe \(co\)fixpoints:(.*?)\* Inductives whose positivity is assumed:(.*)', out2, re.S)
+        if rc2 != 0 or not ax:
+            broken.append(('broken-obligation', 'coqchk', out2.strip()[-1200:]))
+        else:
+            axioms = [a.strip() for a in ax.group(1).strip().split('\n') if a.strip() and a.strip() != '<none>']
+            bad_ax = [a for a in axioms if a.split()[0] not in allowed and a.split()[0].split('.')[-1] not in allowed]
+            for extra in ax.groups()[1:]:
+                if extra.strip() != '<none>':
+                    bad_ax.append('unsafe: ' + extra.strip()[:200])
+            for a in bad_ax:
+                broken.append(('broken-obligation', 'coqchk', 'coqchk reports %s' % a))
     closure = dep_closure(list(props_files) + [t[:-1] for t in extra_targets])
     if translator_out is not None:
         # tables this property depends on: those named by the plugin plus every Generated/T_x.v in the dependency closure
@@ -513,6 +531,7 @@ def run_check(pid, tier, seed, replay=None):
                              'tools/gen_tables.py + tools/tables/*.py (literal tables translated from the Python AST on every run)',
                              'correspondence harness vlib/*.py + props/%s.py (generators, implementation runner, Coq literal printer)' % pid.lower()] + tb,
             'theorems': assum,
+            'coqchk': coqchk_report,
             'evaluations': total_eval, 'distinct_nontrivial': len(distinct),
             'rule': getattr(plugin, 'RULE', '') or '; '.join(filter(None, [p.RULE for p in parts])),
             'samples': samples[:6],
